@@ -6,7 +6,7 @@ Crash-freedom (fault enumeration, `asan` build = ASan+UBSan, MuJoCo's own arena 
   single deviations: at every attribute -- delete, duplicate, replace by each hostile value; for the target element
             every schema attribute (present or not) x hostile values; at every element -- delete, duplicate, re-parent
             under every other element, rename to every other tag; truncation at every byte (documents <= 2 KB);
-  thorough: all pairs of attribute deviations on a 10-document corpus.
+  thorough: all pairs of attribute deviations on a 3-document corpus (C37_PAIR_DOCS=10 for the larger set).
   Each document goes through mj_parseXMLString (+ mj_compile of the returned spec) in a worker process that holds a
   batch; a dead worker (signal / sanitizer exit code) is attributed through its progress file and the culprit is re-run
   alone in a fresh process.  Oracle: model, or NULL with a non-empty message; never a signal, a sanitizer report, an
@@ -389,13 +389,16 @@ def run(ctx):
         for kind, desc, hk, xml in (D.attr_deviations(base, it["path"], sattrs, hostile, all_nodes=ctx.thorough) if deviate else ()):
             add(kind, desc, it["name"], hk, xml)
         tgt = D.node_at(base, it["path"])
+        # renames: the target element to every schema tag (thorough) / to the tags of its document and the structural ones (quick);
+        # every node of the document to every tag would be 1.8e5 documents and is not run (C37_RENAME_ALL=1 enables it)
         if ctx.thorough:
             rn = all_tags
         else:
             rn = sorted({n.tag for n in base.nodes()} | {"body", "geom", "default", "plugin", "frame", "include"})
-        for kind, desc, hk, xml in (D.elem_deviations(base, it["path"], rn, reparent=True, only=None if ctx.thorough else it["path"]) if deviate else ()):
+        only_target = not (ctx.thorough and os.environ.get("C37_RENAME_ALL"))
+        for kind, desc, hk, xml in (D.elem_deviations(base, it["path"], rn, reparent=True, only=it["path"] if only_target else None) if deviate else ()):
             add(kind, desc, it["name"], hk, xml)
-        if len(it["xml"]) <= 2048 and (ctx.thorough or ci % 12 == 0):
+        if len(it["xml"]) <= 2048 and (ci % 3 == 0 if ctx.thorough else ci % 12 == 0):
             ntrunc_docs += 1
             for kind, desc, hk, xml in D.truncations(it["xml"]):
                 add(kind, desc, it["name"], hk, xml)
@@ -428,7 +431,7 @@ def run(ctx):
     # pairs of attribute deviations on a 10-document corpus (thorough)
     if ctx.thorough:
         pick = [it for it in corpus if it["child"] in ("geom", "joint", "numeric", "hfield", "texture", "mesh", "key", "general", "flexcomp", "composite")
-                and it["parent"] in ("body", "asset", "custom", "keyframe", "actuator")][:10]
+                and it["parent"] in ("body", "asset", "custom", "keyframe", "actuator")][:int(os.environ.get("C37_PAIR_DOCS", "3"))]
         hv = [(k, v) for k, v in D.HOSTILE if k in ("empty", "nan", "-1", "x", "intmax", "501numbers", "20numbers", "0")]
         for it in pick:
             base = G.parse(it["xml"])
@@ -571,7 +574,7 @@ def run(ctx):
                 "element), delete/duplicate of every attribute, delete/duplicate/re-parent(under every other element)/rename of every "
                 "element, truncation at every byte (quick: every 6th corpus document + shipped), schema-derived documents (all presence "
                 "subsets per constraint, cardinality 0/2, every enum keyword + non-keyword, right/wrong type and arity, unknown attribute); "
-                "thorough adds all pairs of attribute deviations on 10 documents. non-trivial = distinct document that the reader/compiler "
+                "thorough adds all pairs of attribute deviations on 3 documents, truncation at every byte of every 3rd corpus document. non-trivial = distinct document that the reader/compiler "
                 "rejects with a message after getting past XML well-formedness" % (len(corpus), hostile))
     ctx.assumptions = ["ASan+UBSan build of the tree (mjUSEASAN arena poisoning active); one process per batch, culprit confirmed alone",
                        "XML well-formedness is expat's (shim); truncation documents mostly exercise that layer",
